@@ -499,7 +499,8 @@ def _endpoint_from_socksport_line(reactor, socks_config):
         # XXX wait, can SOCKSPort lines with "unix:/path" still
         # include options afterwards? What about if the path has a
         # space in it?
-        return UNIXClientEndpoint(reactor, socks_config[5:])
+        # (options may follow the path)
+        return UNIXClientEndpoint(reactor, socks_config.split()[0][5:])
 
     # options like KeepAliveIsolateSOCKSAuth can be appended
     # to a SocksPort line...
